@@ -63,6 +63,18 @@ Theorem C08_refines_spec_go_rank_upto_1000 :
 Proof. exact refines_spec_go_rank_1000. Qed.
 Print Assumptions C08_refines_spec_go_rank_upto_1000.
 
+(* Min and Max of the specification are least and greatest members of the multiset. *)
+Theorem C08_min_max :
+  forall (rank : Z -> Z -> Z) (pf : str -> option bound) (c : config Qc)
+         (x : Qc) (r : list Qc) (sampled : Qc) (tags : list str) (h : hist),
+    has_histogram_tag tags = false ->
+    let xs := x :: r in
+    let t := timer_spec rank pf c xs sampled tags h in
+    (In (t_min t) xs /\ forall z, In z xs -> (t_min t <= z)%Qc) /\
+    (In (t_max t) xs /\ forall z, In z xs -> (z <= t_max t)%Qc).
+Proof. exact spec_min_max. Qed.
+Print Assumptions C08_min_max.
+
 (* The report depends on the multiset of values only.  A histogram timer keeps its values in
    arrival order, so reports are compared with their values sorted ([sorted_values]); for a
    plain timer the reports are equal as they are. *)
